@@ -275,6 +275,8 @@ func (self TokenKind) String() string {
 		display = "trigger"
 	case BitOr:
 		display = "|"
+	case BitAnd:
+		display = "&"
 	case BitXor:
 		display = "^"
 	case ShiftLeft:
